@@ -5,8 +5,10 @@ import Cx.Proofs.Fast
   `maxRecDepth` — the 256-entry tables are built by `Array.ofFn`).
   FIXED findings (`…_fixed`): the same witnesses, now with the theorem that the applicability predicate REJECTS the
   pattern (lazy `cls+?`, lazy / `{0}` / non-ASCII composite part, case-folded anchored literal) or that the matcher now
-  answers what the reference matcher answers (`.` vs `\n`, Latin-1 literal) — the general exactness theorems of
-  Cx.Proofs.Fast no longer carry the corresponding hypotheses.
+  answers what the reference matcher answers (`.` vs `\n`, Latin-1 literal; the first-byte set of a case-folded or
+  non-ASCII literal / class) — the general exactness theorems of Cx.Proofs.Fast no longer carry the corresponding
+  hypotheses.  The first-byte filter keeps four witnesses of its remaining defect (a zero-width assertion in first
+  position adds no byte but leaves the set complete).
   The reference for "the correct answer" is the fragment specification where one exists (`plusFind`, `compFind` over
   `astParts`, `anchoredSpecB`) and the general leftmost-first reference matcher `Ref.refFind` otherwise; both are
   checked against Go's stdlib `regexp` by the harness.
@@ -297,30 +299,130 @@ theorem branchDispatch_depth_needed :
     Ref.refFind re #[97] 0 = none := by
   decide
 
+/-! ### ExtractFirstBytes (after the case-folding / multi-byte fix of nfa/firstbytes.go) -/
+
+/-- a three-entry excerpt of the `unicode.SimpleFold` orbits (what the loop appends for `A`, `K`, `S`), enough for the
+    witnesses below; it satisfies the part of `OrbitSound` they exercise -/
+def cexOrbit (r : Nat) : List Nat :=
+  if r = 65 then [97] else if r = 75 then [107, 0x212A] else if r = 83 then [115, 0x17F] else []
+
 set_option maxRecDepth 1000000 in
-/-- FINDING (`FoldCase` ignored): `(?i)^ab` (literal stored as "AB"): the set is `{'A'}`, complete and useful, so "ab" is
-    rejected by its first byte although the pattern matches it. -/
-theorem firstBytes_foldCase_counterexample :
+/-- FIXED (was: `FoldCase` ignored): `(?i)^ab` (literal stored as "AB"): the set is now `{'A','a'}` and "ab" passes.
+    `(?i)^k` (stored as "K"): `{'K','k',0xE2}` — 0xE2 is the lead byte of U+212A KELVIN SIGN, which Go folds with `k`
+    (the reference matcher does not: it folds ASCII letters only, so that member is justified by `firstBytes_literal_orbit`,
+    not by a `Ref` match). -/
+theorem firstBytes_foldCase_fixed :
     let re := Re.cat [Re.leaf .beginText, Re.litFold [65, 66]]
-    (extractFirstBytes re).map (fun fb => (fb.isUseful, fb.contains 97)) = some (true, false) ∧
+    let rk := Re.cat [Re.leaf .beginText, Re.litFold [75]]
+    fbFrag 21 re = true ∧
+    (extractFirstBytes cexOrbit re).map (fun fb => (fb.isUseful, fb.count, fb.contains 65, fb.contains 97)) =
+      some (true, 2, true, true) ∧
+    Ref.refFind re #[97, 98] 0 = some (0, 2) ∧
+    (extractFirstBytes cexOrbit rk).map (fun fb => (fb.isUseful, fb.count, fb.contains 75, fb.contains 107, fb.contains 0xE2)) =
+      some (true, 3, true, true, true) := by
+  decide
+
+set_option maxRecDepth 1000000 in
+/-- why `firstBytes_filter_sound` keeps the hypothesis `OrbitSound foldOrbit`: it is a fact about `unicode.SimpleFold`
+    (the model's parameter must list at least the ASCII case variants).  With an EMPTY orbit function the model is the old
+    code: `(?i)^ab` gives `{'A'}` and "ab" is rejected although the pattern matches it. -/
+theorem firstBytes_orbitSound_needed :
+    let re := Re.cat [Re.leaf .beginText, Re.litFold [65, 66]]
+    fbFrag 21 re = true ∧
+    (extractFirstBytes (fun _ => []) re).map (fun fb => (fb.isUseful, fb.contains 97)) = some (true, false) ∧
     Ref.refFind re #[97, 98] 0 = some (0, 2) := by
   decide
 
 set_option maxRecDepth 1000000 in
-/-- FINDING (Latin-1 runes used as bytes): `^[é-ë]x`: the set is `{0xE9,0xEA,0xEB}`, but "éx" starts with byte 0xC3. -/
-theorem firstBytes_latin1_counterexample :
+/-- FIXED (was: Latin-1 runes used as bytes): `^[é-ë]x`: the set is now every byte `0x80..0xFF` (128 of them), so "éx"
+    (C3 A9 78) passes; the literal `^éx` gives exactly `{0xC3}`, the UTF-8 lead byte. -/
+theorem firstBytes_latin1_fixed :
     let re := Re.cat [Re.leaf .beginText, Re.cls [0xE9, 0xEB], Re.lit [120]]
-    (extractFirstBytes re).map (fun fb => (fb.isUseful, fb.contains 0xC3)) = some (true, false) ∧
-    Ref.refFind re #[0xC3, 0xA9, 120] 0 = some (0, 3) := by
+    let rl := Re.cat [Re.leaf .beginText, Re.lit [0xE9, 120]]
+    fbFrag 21 re = true ∧
+    (extractFirstBytes cexOrbit re).map (fun fb => (fb.isUseful, fb.count, fb.contains 0xC3, fb.contains 0x7F)) =
+      some (true, 128, true, false) ∧
+    Ref.refFind re #[0xC3, 0xA9, 120] 0 = some (0, 3) ∧
+    (extractFirstBytes cexOrbit rl).map (fun fb => (fb.isUseful, fb.count, fb.contains 0xC3, fb.contains 0xE9)) =
+      some (true, 1, true, false) ∧
+    Ref.refFind rl #[0xC3, 0xA9, 120] 0 = some (0, 3) := by
   decide
 
 set_option maxRecDepth 1000000 in
-/-- FINDING (a zero-width alternative contributes no byte but leaves the set "complete"): `^(?:ab|^)+x`: the set is
-    `{'a'}`, so "x" is rejected although the pattern matches it. -/
+/-- FINDING, still present (a zero-width alternative contributes no byte but leaves the set "complete"):
+    `^(?:ab|^)+x`: the set is `{'a'}`, so "x" is rejected although the pattern matches it; outside `fbFrag`. -/
 theorem firstBytes_emptyBranch_counterexample :
     let re := Re.cat [Re.leaf .beginText, Re.plusOf (Re.alt [Re.lit [97, 98], Re.leaf .beginText]), Re.lit [120]]
-    (extractFirstBytes re).map (fun fb => (fb.isUseful, fb.contains 120)) = some (true, false) ∧
+    fbFrag 21 re = false ∧
+    (extractFirstBytes cexOrbit re).map (fun fb => (fb.isUseful, fb.contains 120)) = some (true, false) ∧
     Ref.refFind re #[120] 0 = some (0, 1) := by
+  decide
+
+set_option maxRecDepth 1000000 in
+/-- FINDING, still present (`\A` as an alternative): `^(?:a|^)`: the set is `{'a'}`, complete and useful, so "b" is
+    rejected — but the pattern matches the empty string at offset 0 of "b" (`regexp`: `[0 0]`). -/
+theorem firstBytes_beginAnchor_counterexample :
+    let re := Re.cat [Re.leaf .beginText, Re.alt [Re.lit [97], Re.leaf .beginText]]
+    fbFrag 21 re = false ∧
+    (extractFirstBytes cexOrbit re).map (fun fb => (fb.isUseful, fb.contains 98)) = some (true, false) ∧
+    Ref.refFind re #[98] 0 = some (0, 0) := by
+  decide
+
+set_option maxRecDepth 1000000 in
+/-- FINDING, still present (`(?m)$` in first position): `^(?m:x|$\na)`: the set is `{'x'}`, so "\na" is rejected although
+    the pattern matches it (`$` holds before the line feed, then `\na` is consumed: `[0 2]`); likewise `^(?m:a|$)` on
+    "\nb" (`[0 0]`). -/
+theorem firstBytes_endLine_counterexample :
+    let re := Re.cat [Re.leaf .beginText, Re.alt [Re.lit [120], Re.cat [Re.leaf .endLine, Re.lit [10, 97]]]]
+    let r2 := Re.cat [Re.leaf .beginText, Re.alt [Re.lit [97], Re.leaf .endLine]]
+    fbFrag 21 re = false ∧
+    (extractFirstBytes cexOrbit re).map (fun fb => (fb.isUseful, fb.contains 10)) = some (true, false) ∧
+    Ref.refFind re #[10, 97] 0 = some (0, 2) ∧
+    fbFrag 21 r2 = false ∧
+    (extractFirstBytes cexOrbit r2).map (fun fb => (fb.isUseful, fb.contains 10)) = some (true, false) ∧
+    Ref.refFind r2 #[10, 98] 0 = some (0, 0) := by
+  decide
+
+set_option maxRecDepth 1000000 in
+/-- FINDING, still present (an anchor inside a capture group is not skipped by the concatenation loop): `^(?:x|(^)a)`:
+    the set is `{'x'}`, so "a" is rejected although the pattern matches it. -/
+theorem firstBytes_captureAnchor_counterexample :
+    let re := Re.cat [Re.leaf .beginText, Re.alt [Re.lit [120], Re.cat [Re.cap (Re.leaf .beginText), Re.lit [97]]]]
+    fbFrag 21 re = false ∧
+    (extractFirstBytes cexOrbit re).map (fun fb => (fb.isUseful, fb.contains 97)) = some (true, false) ∧
+    Ref.refFind re #[97] 0 = some (0, 1) := by
+  decide
+
+set_option maxRecDepth 1000000 in
+/-- why `fbFrag` excludes a literal starting with U+FFFD: `^\x{FFFD}` gives `{0xEF}`, but the reference matcher (like
+    `regexp`) decodes the ill-formed byte FF as U+FFFD and matches the haystack `FF`.  (coregex's own engines compile the
+    literal to the byte sequence EF BF BD and do not match `FF` either, so the filter changes no coregex answer here.) -/
+theorem firstBytes_runeError_counterexample :
+    let re := Re.cat [Re.leaf .beginText, Re.lit [0xFFFD]]
+    fbFrag 21 re = false ∧
+    (extractFirstBytes cexOrbit re).map (fun fb => (fb.isUseful, fb.contains 0xEF, fb.contains 0xFF)) = some (true, true, false) ∧
+    Ref.refFind re #[0xFF] 0 = some (0, 1) := by
+  decide
+
+set_option maxRecDepth 1000000 in
+/-- `\z` / non-multiline `$` in first position IS in the fragment: `^(?:a|$)` gives `{'a'}`; the pattern matches only the
+    empty haystack besides "a…", and every caller guards the filter with `len(haystack) > 0`. -/
+theorem firstBytes_endText_in_fragment :
+    let re := Re.cat [Re.leaf .beginText, Re.alt [Re.lit [97], Re.leaf .endText]]
+    fbFrag 21 re = true ∧
+    (extractFirstBytes cexOrbit re).map (fun fb => (fb.isUseful, fb.contains 97)) = some (true, true) ∧
+    Ref.refFind re #[] 0 = some (0, 0) ∧ Ref.refFind re #[98] 0 = none := by
+  decide
+
+set_option maxRecDepth 1000000 in
+/-- patterns that can start with the empty string are refused (`nil`), not merely marked incomplete: `a*b`, `(?:|a)b`,
+    `\bab`, `a{0,2}b`, `a?b` -/
+theorem firstBytes_emptyPrefix_nil :
+    extractFirstBytes cexOrbit (Re.cat [Re.starOf (Re.lit [97]), Re.lit [98]]) = none ∧
+    extractFirstBytes cexOrbit (Re.cat [Re.alt [Re.leaf .emptyMatch, Re.lit [97]], Re.lit [98]]) = none ∧
+    extractFirstBytes cexOrbit (Re.cat [Re.leaf .wordBoundary, Re.lit [97, 98]]) = none ∧
+    extractFirstBytes cexOrbit (Re.cat [Re.repOf (Re.lit [97]) 0 2, Re.lit [98]]) = none ∧
+    extractFirstBytes cexOrbit (Re.cat [Re.questOf (Re.lit [97]), Re.lit [98]]) = none := by
   decide
 
 /-- `minMatch = 0` (never built by meta: `ExtractCharClassRanges` rejects `*`) is NOT exact: `cls*` matches the empty
